@@ -102,10 +102,13 @@ static void handler(const Line& t, Out& o) {
       est = est && same_bits(s.get_lower_bound(kappa), p->get_lower_bound(kappa))
                 && same_bits(s.get_upper_bound(kappa), p->get_upper_bound(kappa));
     }
-    if (!s.was_merged) est = est && same_bits(s.kxp, p->kxp) && same_bits(s.hip_est_accum, p->hip_est_accum);
+    if (!s.was_merged) est = est && same_bits(s.hip_est_accum, p->hip_est_accum);
+    // kxp of an EMPTY sketch is not part of the image (it is reset by the reader; tracked under C09): separate flag
+    bool kxp_ok = s.was_merged || same_bits(s.kxp, p->kxp);
+    if (s.get_num_coupons() > 0) est = est && kxp_ok;
     sk[(long)t.at(2)] = std::move(p);
     o.R(1);
-    o.F(stream_eq ? 1 : 0); o.F(reser ? 1 : 0); o.F(est ? 1 : 0); o.F(1); o.F((I)bytes.size());
+    o.F(stream_eq ? 1 : 0); o.F(reser ? 1 : 0); o.F(est ? 1 : 0); o.F(kxp_ok ? 1 : 0); o.F((I)bytes.size());
     break; }
   case 7: { // estimator inputs; F: estimate and bounds bit patterns
     const cpc_sketch& s = gets(t.at(1));
